@@ -105,6 +105,21 @@ func TestVerifC20BrokerHTTPSoak(t *testing.T) {
 			time.Sleep(3 * time.Millisecond)
 		}
 	}()
+	if os.Getenv("VERIF_C20_GEOIP_RELOAD") == "1" {
+		bg.Add(1)
+		go func() { // what main()'s SIGHUP goroutine does: reload the geoip databases while polls are served
+			defer bg.Done()
+			for {
+				select {
+				case <-stop:
+					return
+				default:
+				}
+				ctx.metrics.LoadGeoipDatabases("test_geoip", "test_geoip6")
+				time.Sleep(20 * time.Millisecond)
+			}
+		}()
+	}
 	for k := 0; k < 3; k++ {
 		bg.Add(1)
 		go func(k int) { // monitoring side: every read-only route, and preflights of the others
